@@ -110,10 +110,22 @@ CHECKS['C09'] = {
                  'fresh-connection oracles',
 }
 
+CHECKS['C15'] = {
+    'text': 'Bounded symbolic model checking of PIVOT BY: for every permutation of the two pivot columns and 1-2 '
+            'aggregate columns in the target list, by name and by position, in both pivot orders, on 2-3 row tables '
+            '(keys over {0,1}, falsy and NULL keys in dedicated conditions; aggregated values unbounded symbolic), '
+            'the pivoted result equals the reference pivot of the real un-pivoted result (names, datatypes, rows) and '
+            'un-pivots back to it; PIVOT BY references (symbolic positions, names) are validated at compile time.',
+    'design_ref': 'DESIGN.md section 5, C15',
+    'note': _COMMON_NOTE + ' Pivot keys are hashed by the executor and therefore enumerated over tiny domains.',
+    'technique': 'symbolic execution (CrossHair/z3) of the pivot branch of execute_query and _compile_pivot_by '
+                 'against a reference pivot',
+}
+
 NOT_APPLICABLE = {
     pid: 'check under construction in this session; not claimed yet'
     for pid in [ 'C04', 'C05', 'C06', 'C07', 'C11', 'C12', 'C13',
-                'C14', 'C15', 'C16', 'C17', 'C18', 'C19', 'C20']
+                'C14', 'C16', 'C17', 'C18', 'C19', 'C20']
 }
 
 for _e in ENGINES:
